@@ -146,6 +146,9 @@ structure Facts where
   faulted : Bool := false        -- e / r / w action
   readFault : Option Nat := none
   readEnds : Bool := false       -- e / r action: the loop must notice at its next read
+  uncleanEof : Bool := false     -- EOF while part of a response had been delivered and the loop was alive
+  liveReadFault : Option Nat := none   -- read fault injected while the loop was alive
+  connNoAccept : Bool := false   -- connect reported success although no OK to the password had been delivered
   dropMain : Bool := false
   cancelled : List Nat := []
   results : List (Nat × String) := []
@@ -171,6 +174,8 @@ def removeSubseq : List String → List String → List String
   | l, [] => l
   | [], _ => []
   | a :: as, x :: xs => if a == x then removeSubseq as xs else a :: removeSubseq as (x :: xs)
+
+def containsStr (hay needle : String) : Bool := (hay.splitOn needle).length > 1
 
 def containsSub (hay needle : Bytes) : Bool :=
   let rec go : Bytes → Bool
@@ -229,12 +234,38 @@ def handle (toks : List String) (impl : String) : Verdict :=
     let render (segs : List Segment) : String := "!".intercalate (segs.map fmtSegment)
     let implSegs := impl.splitOn "!"
     let implBody := "!".intercalate (implSegs.take (implSegs.length - 1))
-    let (segs0, used0) := Client.run password [] actions
-    let candidates := if used0 == 0 || used0 > 6 then [(segs0, used0)]
-      else (boolVecs used0).map fun v => Client.run password v actions
-    let chosen : List Segment × Nat := match candidates.find? (fun c => render c.1 == implBody) with
-      | some c => c
-      | none => (segs0, used0)
+    -- search the scheduler's choices: run with a choice prefix (false beyond it); at the first
+    -- segment that differs from the implementation flip the latest consulted `false` choice
+    let implArr := implSegs.take (implSegs.length - 1)
+    let firstDiff (t : List (Segment × Nat)) : Option Nat :=
+      let rec go (i : Nat) : List (Segment × Nat) → List String → Option Nat
+        | [], [] => none
+        | (s, _) :: ts, x :: xs => if fmtSegment s == x then go (i + 1) ts xs else some i
+        | _, _ => some i
+      go 0 t implArr
+    let rec search (fuel : Nat) (v : List Bool) : List (Segment × Nat) × Bool :=
+      let t := Client.runTrace password v actions
+      match fuel, firstDiff t with
+      | _, none => (t, true)
+      | 0, some _ => (t, false)
+      | fuel + 1, some i =>
+        let k := ((t.getD i ({}, 0)).2)            -- choices consulted up to the differing segment
+        -- candidates: positions j < k with v[j] = false (or beyond v), latest first
+        let cands := (List.range k).reverse.filter fun j => !(v.getD j false)
+        let rec tryAll (fuel : Nat) : List Nat → Option (List (Segment × Nat))
+          | [] => none
+          | j :: js =>
+            match fuel with
+            | 0 => none
+            | f + 1 =>
+              let v' := (List.range j).map (fun x => v.getD x false) ++ [true]
+              let (t', ok) := search f v'
+              if ok then some t' else tryAll f js
+        match tryAll fuel cands with
+        | some t' => (t', true)
+        | none => (t, false)
+    let (trace, _) := search 6 []
+    let chosen : List Segment × Nat := (trace.map (·.1), (trace.getLast?.map (·.2)).getD 0)
     let modelSegs := chosen.1
     let lost : List String := modelSegs.flatMap fun s => s.lost.map hex
     -- pending callers according to the model: enqueued, not cancelled, no result
@@ -254,8 +285,14 @@ def handle (toks : List String) (impl : String) : Verdict :=
         | .change n => { f with sv := Spec.Server.change f.sv n }
         | .act (.deliver b) => { f with delivered := f.delivered ++ b }
         | .act (.both _ _ d) => { f with delivered := f.delivered ++ d }
-        | .act .eof => { f with faulted := true, readEnds := true }
-        | .act (.readFault k) => { f with faulted := true, readFault := some k, readEnds := true }
+        | .act .eof =>
+          let bodyNow : Bytes := match Spec.firstLine f.delivered with | some (_, rest) => rest | none => []
+          let onBoundary := bodyNow.isEmpty || f.sv.marks.contains bodyNow.length
+          { f with faulted := true, readEnds := true,
+                   uncleanEof := f.uncleanEof || (!onBoundary && !f.droppedSeen && !f.faulted && startsWith f.sv.out bodyNow) }
+        | .act (.readFault k) =>
+          { f with faulted := true, readFault := some k, readEnds := true,
+                   liveReadFault := if f.droppedSeen || f.faulted then f.liveReadFault else some k }
         | .act (.writeFault _) => { f with faulted := true }
         | .act .dropMain => { f with dropMain := true }
         | .act (.cancel r) => { f with cancelled := f.cancelled ++ [r] }
@@ -280,7 +317,11 @@ def handle (toks : List String) (impl : String) : Verdict :=
         else if p == "evend" then { f with evend := true }
         else if p == "closed" then { f with closedSeen := true }
         else if p == "dropped" then { f with droppedSeen := true }
-        else if p.startsWith "conn=" then { f with connect := some (p.drop 5).toString }
+        else if p.startsWith "conn=" then
+          let bodyNow : Bytes := match Spec.firstLine f.delivered with | some (_, rest) => rest | none => []
+          -- judged only while the peer is honest (what was delivered is what the specification server wrote)
+          let bad := p.startsWith "conn=ok" && password.isSome && startsWith f.sv.out bodyNow && !(startsWith bodyNow (str "OK\n"))
+          { f with connect := some (p.drop 5).toString, connNoAccept := f.connNoAccept || bad }
         else f) f
     let f0 : Facts := { sv := { locked := locked } }
     let f := (pacts.zip implSegs).foldl step f0
@@ -348,6 +389,7 @@ def handle (toks : List String) (impl : String) : Verdict :=
       else if on "C05" && honest && !f.sv.violations.isEmpty then "fail:C05-line-written-while-server-idles"
       else if on "C18" && honest && !f.sv.authLines.isEmpty then "fail:C18-request-before-password-accepted"
       else if on "C18" && f.idleBeforeAuth then "fail:C18-idle-before-password-accepted"
+      else if on "C18" && f.connNoAccept then "fail:C18-connected-without-the-server-accepting-the-password"
       else if on "C05" && honest && connectedOk && password.isNone && !(startsWith f.writes (str "idle\n")) && !f.writes.isEmpty then "fail:C05-first-write-not-idle"
       else if on "C18" && password.isSome && !f.writes.isEmpty && !(startsWith f.writes (password.getD [])) then "fail:C18-password-not-first"
       else if on "C18" && (match f.connect with | some "badpw" => f.writes != password.getD [] | _ => false) then "fail:C18-wrote-after-rejected-password"
@@ -357,15 +399,25 @@ def handle (toks : List String) (impl : String) : Verdict :=
            (e.startsWith "fail:C13" && on "C13") || e.startsWith "fail:result" then e else "ok"
       | none =>
         if on "C01" && honest && !fifoOk then "fail:C01-requests-out-of-order"
-        else if on "C04" && !(isSubseq f.events reported) then "fail:C04-event-not-reported-by-server"
+        else if on "C04" && startsWith f.sv.out body && !(isSubseq f.events reported) then "fail:C04-event-not-reported-by-server"
         else if on "C04" && honest && connectedOk && !f.dropMain && !eventsExact then
           (if eventsK3 then "fail:C04-events-lost-with-dropped-receive-future" else "fail:C04-events-differ-from-reported")
         else if on "C08" && f.faulted && connectedOk && !f.dropMain && !pendImpl.isEmpty then "fail:C08-request-never-resolved"
         else if on "C08" && f.readEnds && connectedOk && !f.dropMain && !(f.droppedSeen && f.evend && f.closedSeen) then
           "fail:C08-not-closed-after-fault"
+        else if on "C08" && f.uncleanEof && connectedOk && !f.dropMain && f.cancelled.isEmpty && !(containsStr impl "proto:ueof") then
+          (if !lost.isEmpty then "fail:C08-unclean-end-hidden-by-dropped-receive-future"
+           else "fail:C08-unclean-end-of-stream-not-surfaced")
+        else if on "C08" && connectedOk && !f.dropMain && f.cancelled.isEmpty &&
+            (match f.liveReadFault with | some k => !(containsStr impl s!"proto:io{k}") | none => false) then
+          "fail:C08-read-error-not-surfaced"
+        else if on "C08" && f.dropMain && connectedOk && !f.faulted && startsWith f.sv.out body && pendImpl.isEmpty &&
+            !(f.droppedSeen && f.evend) then "fail:C08-last-handle-dropped-but-connection-kept"
+        else if on "C05" && honest && connectedOk && !f.dropMain && !f.sv.idle then "fail:C05-not-idling-at-quiescence"
         else if on "C01" && honest && connectedOk && !f.dropMain && !pendImpl.isEmpty then "fail:C01-request-never-answered"
         else "ok"
-    let cls := if oracle == "fail:C04-events-lost-with-dropped-receive-future" then "K3" else "-"
+    let cls := if oracle == "fail:C04-events-lost-with-dropped-receive-future" ||
+        oracle == "fail:C08-unclean-end-hidden-by-dropped-receive-future" then "K3" else "-"
     let branch :=
       (if password.isSome then "pw-" else "") ++
       (if f.faulted then "fault" else if !honest then "garbage" else "clean") ++
